@@ -154,8 +154,11 @@ class Spectrum:
 
         if isinstance(other, (int, float, np.number, np.bool_, list, tuple, np.ndarray)):
             wave = self.wave.copy()
+            # the arithmetic is on the values, not on the (possibly narrow integer
+            # or boolean) type they are stored in - as it is with a Spectrum operand
+            self_value = self.value.astype(np.result_type(self.value.dtype, float))
             try:
-                value = ufunc(self.value, other)
+                value = ufunc(self_value, other)
             except ValueError:
                 raise
 
